@@ -114,6 +114,13 @@ func c07TreeOpt(r *fw.Rand, maxNodes int, wide bool) *gen.Spec {
 				s.Pointer = "P" + fmt.Sprint(r.Intn(3))
 			}
 		}
+		if (s.Tag == "EVEN" || s.Tag == "RESI" || s.Tag == "BIRT") && r.Chance(1, 3) {
+			// a repeated optional line with different values
+			for _, v := range [][]string{{"Census", "Residence"}, {"a", "b", "a"}, {"Graduation", ""}}[r.Intn(3)] {
+				s.Kids = append(s.Kids, &gen.Spec{Tag: "TYPE", Value: v})
+				budget--
+			}
+		}
 		if depth < 4 && budget > 0 {
 			nk := r.Intn(4)
 			if s.Tag == "BIRT" || s.Tag == "DEAT" || s.Tag == "RESI" || s.Tag == "EVEN" || s.Tag == "BURI" || s.Tag == "BAPM" {
@@ -478,6 +485,80 @@ func c07Pinned(i int) (spec, rel *gen.Spec) {
 
 const c07PinnedCases = 5
 
+func c07RecordCopies(c *fw.Ctx, r *fw.Rand) {
+	g := gen.NewFG(r, gen.FGOpts{People: r.Range(2, 8), MissingBits: true})
+	g.Head = r.Bool()
+	recs := g.Specs()
+	// placeholders: a wife who is only referred to, a family without members
+	bare := &gen.Spec{Tag: "INDI", Pointer: "P900"}
+	recs = c14InsertBeforeTRLR(recs, bare, &gen.Spec{Tag: "FAM", Pointer: "F900", Kids: []*gen.Spec{{Tag: "WIFE", Value: "@P900@"}}}, &gen.Spec{Tag: "FAM", Pointer: "F901"}, &gen.Spec{Tag: "SOUR", Pointer: "S900"}, &gen.Spec{Tag: "NOTE", Pointer: "N900", Value: "a note"})
+	text := gen.Text(recs)
+	doc, err := gedcom.NewDocumentFromString(text)
+	if err != nil {
+		c.HarnessError("C07 record document does not decode: " + err.Error())
+		return
+	}
+	payload := map[string]interface{}{"gedcom": text}
+	views := func() string {
+		var sb strings.Builder
+		sb.WriteString(doc.String())
+		fmt.Fprintf(&sb, "records=%d individuals=%d families=%d\n", len(doc.Nodes()), len(doc.Individuals()), len(doc.Families()))
+		for _, n := range doc.Nodes() {
+			if n.Pointer() != "" {
+				fmt.Fprintf(&sb, "%s -> same object: %v\n", n.Pointer(), doc.NodeByPointer(n.Pointer()) == n)
+			}
+		}
+		for _, f := range doc.Families() {
+			h, w := "-", "-"
+			if x := f.Husband(); x != nil && x.Individual() != nil {
+				h = x.Individual().Pointer()
+			}
+			if x := f.Wife(); x != nil && x.Individual() != nil {
+				w = x.Individual().Pointer()
+			}
+			fmt.Fprintf(&sb, "%s husband %s wife %s children %d\n", f.Pointer(), h, w, len(f.Children()))
+		}
+		return sb.String()
+	}
+	before := views()
+	for _, n := range doc.Nodes() {
+		kind := n.Tag().Tag()
+		if len(n.Nodes()) == 0 {
+			kind += "(no lines)"
+		}
+		c.Count("record-copies", 1)
+		want := c07Text(n)
+		target := gedcom.NewDocument()
+		cp := gedcom.DeepCopy(n, target)
+		if got := c07Text(cp); got != want {
+			c.Violation("copy-text:record:"+kind, fmt.Sprintf("DeepCopy of record %s serialises as\n%s, want\n%s", gen.Describe(n), got, want), payload)
+			return
+		}
+		if after := views(); after != before {
+			c.Violation("source-document-modified-by-copy:"+kind, fmt.Sprintf("copying record %s into a new document changed the document it lives in:\nbefore:\n%s\nafter:\n%s", gen.Describe(n), clip(before, 900), clip(after, 900)), payload)
+			return
+		}
+		// changing the copy changes nothing in the source document
+		cp.AddNode(gedcom.NewNode(gedcom.TagFromString("_VNEW"), "added to the copy", ""))
+		if after := views(); after != before {
+			c.Violation("alias:mutating-record-copy-changed-source-document:"+kind, fmt.Sprintf("after adding a line to the copy of %s the document it was copied from reads differently:\n%s", gen.Describe(n), clip(after, 900)), payload)
+			return
+		}
+		if _, isInd := n.(*gedcom.IndividualNode); isInd {
+			if _, ok := cp.(*gedcom.IndividualNode); !ok {
+				c.Violation("copy-kind:record:"+kind, fmt.Sprintf("the copy of an individual is a %T", cp), payload)
+				return
+			}
+		}
+		if _, isFam := n.(*gedcom.FamilyNode); isFam {
+			if _, ok := cp.(*gedcom.FamilyNode); !ok {
+				c.Violation("copy-kind:record:"+kind, fmt.Sprintf("the copy of a family is a %T", cp), payload)
+				return
+			}
+		}
+	}
+}
+
 func c07Run(c *fw.Ctx, i int) {
 	r := c.R
 	spec := c07TreeWide(r, r.Range(3, 24))
@@ -594,6 +675,14 @@ func c07Run(c *fw.Ctx, i int) {
 				break
 			}
 		}
+	}
+
+	// records of a document with relatives, among them people and families
+	// without a line of their own (placeholders that are only referred to):
+	// copying any record, into a new document or into the same one, leaves the
+	// document it comes from as it is
+	if i%4 == 1 {
+		c07RecordCopies(c, r)
 	}
 
 	// aliasing probe
